@@ -148,6 +148,30 @@ def run(ctx):
             ctx.nontriv((name, tuple(m["p"]), tuple(m["s"]), t, "a"))
             rels.append(relations.relate("SameHeavy", base, text, rb, mt, T=T, with_bonds=True, with_hyd=is_prot,
                                          meta=dict(meta, clause="a+c" if is_prot else "a")))
+        # translations that put one of the program's own hydrogens exactly on a coordinate plane (x, y or z = 0.000)
+        if is_prot:
+            conf0 = base.mol.conformations[base.mol.conformation_names[0]]
+            hyd = [a for a in conf0.atoms if a.element == "H" and any(b.element in ("N", "O") for b in a.bonded_atoms)]
+            rng2 = random.Random(ctx.seed * 31 + si)
+            rng2.shuffle(hyd)
+            for k, a in enumerate(hyd[: (12 if ctx.thorough() else 3)]):
+                ax = k % 3
+                t = [0, 0, 0]
+                t[ax] = -int(round((a.x, a.y, a.z)[ax] * 1000))
+                if k % 2:
+                    t[(ax + 1) % 3] = -int(round((a.x, a.y, a.z)[(ax + 1) % 3] * 1000))
+                t = tuple(t)
+                mt = move_text(text, [1, 2, 3], [1, 1, 1], t)
+                T = lambda v, t=t: tuple(x + y for x, y in zip(v, t))  # noqa
+                rb = runner.run(mt, ["-q"], write=False)
+                ctx.count()
+                meta = {"input": name, "motion": {"p": [1, 2, 3], "s": [1, 1, 1], "t": list(t)}, "pdb": mt, "orig": text}
+                if rb.exc is not None:
+                    ctx.violation(f"moved:exception:{name}", f"moved structure raises {rb.exc!r}", meta)
+                    continue
+                ctx.nontriv((name, (1, 2, 3), (1, 1, 1), t, "zero-plane"))
+                rels.append(relations.relate("SameHeavy", base, text, rb, mt, T=T, with_bonds=True, with_hyd=True,
+                                             meta=dict(meta, clause="a+c")))
     # clause (b): supplied hydrogens
     for si, (name, text) in enumerate(prot):
         htext = c07.with_own_hydrogens(text)
